@@ -44,6 +44,11 @@ PROP = {  # commit subject prefix -> (property, what failed)
     "fix: the new value of a reassignment is checked as an expression": ("C05", "'pm := if c then <block ending in \"s\"> else 1' with pm: Int was accepted for all 40 non-conforming type pairs: if/match on the right of ':=' were generated as statements, so their branches were never tied to the variable's type (also closed C06-F3 and the if-with-None half of C06-F5)"),
     "fix: every None literal is typed on its own": ("C06", "'def n: Int? := 1 / n := None / def f() -> Str? => None' was refused ('expected a Str?, was an Int?'): all None literals of a file were one expression for the unifier, so the nullable type learnt at one use was imposed on the others (396 of 7614 cases once every C06 case was also run behind an unrelated, legal None)"),
     "fix: a function body and the new value of a reassignment are constrained before": ("C05", "'def h(b: Box) -> Int => b.f' with f: Float was accepted and '-> Float => b.f' with f: Int refused (likewise 'x := b.f'): the use constraint was queued before the access constraint, so the expression was replaced by the DECLARED type and the field's type then checked against it in the wrong direction; the same ordering let a nullable variable or field pass as last expression of a function returning T (C06-F4), a nullable field pass as new value of a T variable (C06-F5), refused 'o.f := None' for a nullable field (C06-F2) and changed the emitted shape of a one-line if under a comment (C14-F1)"),
+    "fix: a function body is held to its return type under the names the body itself uses": ("C05", "'class A / def ma(self) -> Int => 1 / class R / def f: Str := \"s\" / def get(self) -> Int => self.f' was accepted (any of the 40 non-conforming type pairs, self.f and self.m() alike; former finding C05-F1): the 'fun body type' constraint was renamed with the ENCLOSING environment, whose mapping of self still pointed at the previous class, so it never met the body's own constraints"),
+    "fix: every definition of a name gets a shadowing offset of its own": ("C09", "'def v: Int := 1 / if c then / def v: Str := \"s\" / def v: Int := 1' was refused ('expected an Int, was a Str'): the third definition got the offset v@1 that the definition inside the ended branch already had (924 sequences of the thorough scope machine for C09, 476 for C07; shortest 'DI[S]D')"),
+    "fix: two arguments of one function may not have the same name": ("C02", "'def f(a: Int, a: Int)' (also 'self, self') was accepted and copied: SyntaxError duplicate argument in the emitted Python (110 single-token mutants of the repository samples in the thorough tier)"),
+    "fix: the type of a function without arguments is annotated": ("C02", "'def f(b: () -> Str)' was annotated 'Callable[, str]' with annotate on (valid/function/definition.mamba and its mutants: invalid Python under one setting only, seen by C11 as parsability-differs)"),
+    "fix: a class argument that is also handed to a parent": ("C01", "'class Ch(def y: Int): Pa, Ot(y)' with a method reading self.y was accepted and failed with AttributeError: the synthesised constructor skipped 'self.y = y' for every class argument that also appears among a parent's arguments (found by the inheritance matrix: 3 parent kinds x child with a second parent)"),
     "fix: the output directory is created with its missing parents": ("C13", "'-o out/py' with a missing parent 'out' failed a valid project with 'No such file or directory (os error 2)' and no diagnostic (custom layout, 310 transitions of the thorough BFS)"),
 }
 def main():
